@@ -5,14 +5,13 @@
   conservation of handler ids.
 -/
 import SimVerif.Lemmas.HandlersBasic
+import SimVerif.AcceptSys
 
 namespace SimVerif
 
 /-! ### vocabulary -/
 
-def AcceptOp.h : AcceptOp → Nat
-  | .into h _ _ => h
-  | .fresh h _ => h
+-- `AcceptOp.h` (the handler id of an outstanding accept) is defined in `AcceptSys`
 
 /-- the outstanding accept of an acceptor (`none` for a plain socket) -/
 def TcpSock.acceptOp (s : TcpSock) : Option AcceptOp := s.acc.bind (·.acceptOp)
@@ -107,34 +106,34 @@ theorem tcp_abortAccept_frame (s : TcpSock) :
   | some a => cases h2 : a.acceptOp <;> simp [h, h2]
 
 theorem posts_tcpAbortRecvEffs (s : TcpSock) :
-    (postsOf (tcpAbortRecvEffs s)).map (·.h) = (s.recvH.map (·.h)).toList ++ s.waitRecvH.toList
-    ∧ (∀ c ∈ postsOf (tcpAbortRecvEffs s), c.ec = .aborted)
+    (h4_postsOf (tcpAbortRecvEffs s)).map (·.h) = (s.recvH.map (·.h)).toList ++ s.waitRecvH.toList
+    ∧ (∀ c ∈ h4_postsOf (tcpAbortRecvEffs s), c.ec = .aborted)
     ∧ noInvoke (tcpAbortRecvEffs s) := by
   unfold tcpAbortRecvEffs
-  cases s.recvH <;> cases s.waitRecvH <;> simp [postsOf, NEff.isInvoke]
+  cases s.recvH <;> cases s.waitRecvH <;> simp [h4_postsOf, NEff.isInvoke]
 
 theorem posts_tcpAbortSendEffs (s : TcpSock) :
-    (postsOf (tcpAbortSendEffs s)).map (·.h) = (s.sendH.map (·.h)).toList
-    ∧ (∀ c ∈ postsOf (tcpAbortSendEffs s), c.ec = .aborted)
+    (h4_postsOf (tcpAbortSendEffs s)).map (·.h) = (s.sendH.map (·.h)).toList
+    ∧ (∀ c ∈ h4_postsOf (tcpAbortSendEffs s), c.ec = .aborted)
     ∧ noInvoke (tcpAbortSendEffs s) := by
   unfold tcpAbortSendEffs
-  cases s.sendH <;> simp [postsOf, NEff.isInvoke]
+  cases s.sendH <;> simp [h4_postsOf, NEff.isInvoke]
 
 theorem posts_tcpAbortConnEffs (s : TcpSock) :
-    (postsOf (tcpAbortConnEffs s)).map (·.h) = s.connectH.toList
-    ∧ (∀ c ∈ postsOf (tcpAbortConnEffs s), c.ec = .aborted)
+    (h4_postsOf (tcpAbortConnEffs s)).map (·.h) = s.connectH.toList
+    ∧ (∀ c ∈ h4_postsOf (tcpAbortConnEffs s), c.ec = .aborted)
     ∧ noInvoke (tcpAbortConnEffs s) := by
   unfold tcpAbortConnEffs
-  cases s.connectH <;> simp [postsOf, NEff.isInvoke]
+  cases s.connectH <;> simp [h4_postsOf, NEff.isInvoke]
 
 theorem posts_tcpAbortAcceptEffs (s : TcpSock) :
-    (postsOf (tcpAbortAcceptEffs s)).map (·.h) = (s.acceptOp.map AcceptOp.h).toList
-    ∧ (∀ c ∈ postsOf (tcpAbortAcceptEffs s), c.ec = .aborted)
+    (h4_postsOf (tcpAbortAcceptEffs s)).map (·.h) = (s.acceptOp.map AcceptOp.h).toList
+    ∧ (∀ c ∈ h4_postsOf (tcpAbortAcceptEffs s), c.ec = .aborted)
     ∧ noInvoke (tcpAbortAcceptEffs s) := by
   unfold tcpAbortAcceptEffs
   cases h : s.acceptOp with
-  | none => simp [postsOf]
-  | some op => cases op <;> simp [postsOf, NEff.isInvoke, acceptAbortEff, AcceptOp.h]
+  | none => simp [h4_postsOf]
+  | some op => cases op <;> simp [h4_postsOf, NEff.isInvoke, acceptAbortEff, AcceptOp.h]
 
 theorem effIds_tcpAbortRecvEffs (s : TcpSock) :
     effIds (tcpAbortRecvEffs s) = (s.recvH.map (·.h)).toList ++ s.waitRecvH.toList := by
